@@ -41,8 +41,8 @@ structure Inv (s : St) : Prop where
   accNone : s.acceptedFd = none → s.queued = none
   qinv : ∀ q, s.queued = some q → QInv q
   listenQ : s.role = .listen → s.queued = none
-  fifo : s.admitted = s.taken.map (·.1) ++ pending s ++ s.byClose
-  cons : List.Perm s.arrived (s.admitted ++ s.dropped ++ s.shed)
+  fifo : s.stored = s.taken.map (·.1) ++ pending s ++ s.byClose
+  cons : List.Perm s.arrived (s.stored ++ s.dropped ++ s.shed)
   closedP : s.closed = true → s.acceptedFd = none ∧ s.pollin = false
   openB : s.closed = false → s.byClose = []
   ipcCb : s.role = .ipc → s.inCb = false
@@ -107,8 +107,8 @@ theorem perm_snoc_a {l a b c : List Fd} (x : Fd) (h : l.Perm (a ++ b ++ c)) :
 
 theorem inv_iff (s : St) : Inv s ↔
   (s.fault = false ∧ (s.acceptedFd = none → s.queued = none) ∧ (∀ q, s.queued = some q → QInv q) ∧
-   (s.role = .listen → s.queued = none) ∧ (s.admitted = s.taken.map (·.1) ++ pending s ++ s.byClose) ∧
-   (List.Perm s.arrived (s.admitted ++ s.dropped ++ s.shed)) ∧
+   (s.role = .listen → s.queued = none) ∧ (s.stored = s.taken.map (·.1) ++ pending s ++ s.byClose) ∧
+   (List.Perm s.arrived (s.stored ++ s.dropped ++ s.shed)) ∧
    (s.closed = true → s.acceptedFd = none ∧ s.pollin = false) ∧ (s.closed = false → s.byClose = []) ∧
    (s.role = .ipc → s.inCb = false) ∧ (s.role = .listen → s.closed = false → s.inCb = true → s.pollin = true) ∧
    (s.role = .listen → s.closed = false → s.inCb = false →
@@ -119,7 +119,7 @@ theorem inv_iff (s : St) : Inv s ↔
 theorem inv_close (s : St) (h : Inv s) : Inv (close s) := by
   rw [inv_iff] at *
   unfold close
-  rcases s with ⟨role, ipc, acc, q, pollin, inCb, closed, spare, fault, stuck, arrived, admitted, taken, byClose, dropped, shed⟩
+  rcases s with ⟨role, ipc, acc, q, pollin, inCb, closed, spare, fault, stuck, arrived, stored, taken, byClose, dropped, shed⟩
   simp only [pending] at *
   obtain ⟨h1,h2,h3,h4,h5,h6,h7,h8,h9,h10,h11⟩ := h
   subst h5
@@ -128,7 +128,7 @@ theorem inv_close (s : St) (h : Inv s) : Inv (close s) := by
 theorem inv_ioEnd (s : St) (h : Inv s) : Inv (ioEnd s) := by
   rw [inv_iff] at *
   unfold ioEnd
-  rcases s with ⟨role, ipc, acc, q, pollin, inCb, closed, spare, fault, stuck, arrived, admitted, taken, byClose, dropped, shed⟩
+  rcases s with ⟨role, ipc, acc, q, pollin, inCb, closed, spare, fault, stuck, arrived, stored, taken, byClose, dropped, shed⟩
   simp only [pending] at *
   obtain ⟨h1,h2,h3,h4,h5,h6,h7,h8,h9,h10,h11⟩ := h
   subst h5
@@ -151,7 +151,7 @@ theorem perm_app_c {l a b c : List Fd} (t : List Fd) (h : l.Perm (a ++ b ++ c)) 
 theorem inv_ioBegin (s : St) (r : AcceptRes) (t : Trick) (h : Inv s) : Inv (ioBegin s r t) := by
   rw [inv_iff] at *
   unfold ioBegin
-  rcases s with ⟨role, ipc, acc, q, pollin, inCb, closed, spare, fault, stuck, arrived, admitted, taken, byClose, dropped, shed⟩
+  rcases s with ⟨role, ipc, acc, q, pollin, inCb, closed, spare, fault, stuck, arrived, stored, taken, byClose, dropped, shed⟩
   simp only [pending] at *
   obtain ⟨h1,h2,h3,h4,h5,h6,h7,h8,h9,h10,h11⟩ := h
   subst h5
@@ -179,7 +179,7 @@ theorem take_one_headD {α} (l : List α) (d : α) (h : 1 ≤ l.length) : [l.hea
 theorem inv_uvAccept (s : St) (c : ClientTy) (e : Int) (h : Inv s) : Inv (uvAccept s c e).1 := by
   rw [inv_iff] at *
   unfold uvAccept
-  rcases s with ⟨role, ipc, acc, q, pollin, inCb, closed, spare, fault, stuck, arrived, admitted, taken, byClose, dropped, shed⟩
+  rcases s with ⟨role, ipc, acc, q, pollin, inCb, closed, spare, fault, stuck, arrived, stored, taken, byClose, dropped, shed⟩
   simp only [pending] at *
   obtain ⟨h1,h2,h3,h4,h5,h6,h7,h8,h9,h10,h11⟩ := h
   subst h5
@@ -215,11 +215,11 @@ macro "perm_count" h:ident : tactic => `(tactic| (
   simp only [List.count_append, List.count_cons, List.count_nil, List.append_assoc, Option.toList] at *;
   (try split) <;> omega))
 
-theorem inv_admitFirst (s : St) (fd : Fd) (h : Inv s) (hr : s.role = .ipc) (hc : s.closed = false)
+theorem inv_storeFirst (s : St) (fd : Fd) (h : Inv s) (hr : s.role = .ipc) (hc : s.closed = false)
     (ha : s.acceptedFd = none) :
-    Inv { s with arrived := s.arrived ++ [fd], acceptedFd := some fd, admitted := s.admitted ++ [fd] } := by
+    Inv { s with arrived := s.arrived ++ [fd], acceptedFd := some fd, stored := s.stored ++ [fd] } := by
   rw [inv_iff] at *
-  rcases s with ⟨role, ipc, acc, q, pollin, inCb, closed, spare, fault, stuck, arrived, admitted, taken, byClose, dropped, shed⟩
+  rcases s with ⟨role, ipc, acc, q, pollin, inCb, closed, spare, fault, stuck, arrived, stored, taken, byClose, dropped, shed⟩
   simp only [pending] at *
   obtain ⟨h1,h2,h3,h4,h5,h6,h7,h8,h9,h10,h11⟩ := h
   subst h5
@@ -228,9 +228,9 @@ theorem inv_admitFirst (s : St) (fd : Fd) (h : Inv s) (hr : s.role = .ipc) (hc :
 
 theorem inv_enqueue (s : St) (fd : Fd) (q' : Queue) (h : Inv s) (hr : s.role = .ipc) (hc : s.closed = false)
     (ha : s.acceptedFd.isSome = true) (hq : QInv q') (hl : qlist (some q') = qlist s.queued ++ [fd]) :
-    Inv { s with arrived := s.arrived ++ [fd], queued := some q', admitted := s.admitted ++ [fd] } := by
+    Inv { s with arrived := s.arrived ++ [fd], queued := some q', stored := s.stored ++ [fd] } := by
   rw [inv_iff] at *
-  rcases s with ⟨role, ipc, acc, q, pollin, inCb, closed, spare, fault, stuck, arrived, admitted, taken, byClose, dropped, shed⟩
+  rcases s with ⟨role, ipc, acc, q, pollin, inCb, closed, spare, fault, stuck, arrived, stored, taken, byClose, dropped, shed⟩
   simp only [pending] at *
   obtain ⟨h1,h2,h3,h4,h5,h6,h7,h8,h9,h10,h11⟩ := h
   subst h5
@@ -243,7 +243,7 @@ theorem inv_enqueue (s : St) (fd : Fd) (q' : Queue) (h : Inv s) (hr : s.role = .
 theorem inv_drop (s : St) (fd : Fd) (h : Inv s) :
     Inv { s with arrived := s.arrived ++ [fd], dropped := s.dropped ++ [fd] } := by
   rw [inv_iff] at *
-  rcases s with ⟨role, ipc, acc, q, pollin, inCb, closed, spare, fault, stuck, arrived, admitted, taken, byClose, dropped, shed⟩
+  rcases s with ⟨role, ipc, acc, q, pollin, inCb, closed, spare, fault, stuck, arrived, stored, taken, byClose, dropped, shed⟩
   simp only [pending] at *
   obtain ⟨h1,h2,h3,h4,h5,h6,h7,h8,h9,h10,h11⟩ := h
   subst h5
@@ -267,7 +267,7 @@ theorem inv_recvLoop (fds : List Fd) : ∀ (s : St) (err : Int) (n : Nat) (f : O
       cases ha : s.acceptedFd with
       | none =>
         simp only []
-        exact ih _ _ _ _ (inv_admitFirst s fd h hr hc ha) hr hc
+        exact ih _ _ _ _ (inv_storeFirst s fd h hr hc ha) hr hc
       | some a =>
         simp only []
         rcases spec with ⟨q', hq', e1, e2, e3⟩ | ⟨e1, e2⟩
@@ -309,7 +309,7 @@ theorem inv_run (ops : List Op) : ∀ s, Inv s → Inv (run s ops) := by
 /-! ### the ghost flag `stuck` changes only in `uv_accept` with a failing client open -/
 
 theorem stuck_ioBegin (s : St) (r : AcceptRes) (t : Trick) : (ioBegin s r t).stuck = s.stuck := by
-  rcases s with ⟨role, ipc, acc, q, pollin, inCb, closed, spare, fault, stuck, arrived, admitted, taken, byClose, dropped, shed⟩
+  rcases s with ⟨role, ipc, acc, q, pollin, inCb, closed, spare, fault, stuck, arrived, stored, taken, byClose, dropped, shed⟩
   unfold ioBegin
   cases r <;> simp only [] <;> repeat' split
   all_goals rfl
